@@ -32,7 +32,8 @@ BOUNDS = {
                                'recording length and contents', 'extra attribute values']},
 }
 ASSUMPTIONS = [
-    'well-formed dataset: mandatory files present with consistent shapes; spike samples non-decreasing (a separate '
+    'well-formed dataset with at least two spikes, templates and channels (the loader squeezes every array, so a '
+    'dimension of length one is ambiguous): mandatory files present with consistent shapes; spike samples non-decreasing (a separate '
     'configuration gives unsorted samples and expects ValueError); ids fit their dtype',
     'NaN/inf entries are concrete values at fixed positions of amplitudes / one all-NaN template (configuration)',
     'sampling rate 100 Hz (exact); ALF seconds are k/rate; whitening matrices from a fixed concrete set',
@@ -82,7 +83,7 @@ def configs(tier):
                           'pc_features': 'sym'}},
             {'names': 'alf', 'sparse': True, 'optional': {'spike_samples': 'sym', 'channel_shanks': 'sym'},
              'sym': ['spikes', 'channels']},
-            {'names': 'ks', 'ns': 1, 'optional': {'amplitudes': 'sym'}},
+            {'names': 'ks', 'ns': 2, 'optional': {'amplitudes': 'sym'}},
             {'names': 'ks', 'T': 3, 'curated': True, 'optional': {'spike_clusters': 'sym'}, 'sym': ['ids']},
             {'names': 'ks', 'curated': True, 'sym': ['ids', 'templates'], 'ns': 2},
             {'names': 'ks', 'raw': True, 'ncd': 4, 'sym': ['spikes', 'channels'], 'optional': {'raw': 'yes'}},
